@@ -248,7 +248,7 @@ _EXTRA = {
     "C13": ["samples:BaseSamples.__setstate__", "transforms:CompositeTransform.__init__"],
     "C15": ["flows.jax.flows:FlowJax.save", "flows.torch.flows:BaseTorchFlow.save", "samples:BaseSamples.from_dict", "samples:Samples.rejection_sample",
             "transforms:CompositeTransform.forward", "transforms:CompositeTransform.inverse"],
-    "C17": ["aspire:Aspire.sample_posterior", "samplers.mcmc:Emcee.sample", "samplers.mcmc:MiniPCN.sample"],
+    "C17": ["aspire:Aspire.sample_posterior", "samplers.mcmc:Emcee.sample", "samplers.mcmc:MiniPCN.sample", "samplers.base:Sampler.log_likelihood"],
     "C18": ["samplers.smc.emcee:EmceeSMC.mutate", "samplers.smc.minipcn:MiniPCNSMC.mutate"],
     "C20": ["flows.jax.flows:FlowJax.sample_and_log_prob", "samplers.importance:ImportanceSampler.sample"],
 }
